@@ -16,6 +16,16 @@ def random_case(rng, max_states=3, max_trans=6, vcs=None, allow_eps_out=False):
         t = [rng.randrange(n), a, rng.randrange(n), out]
         if t not in trans:
             trans.append(t)
+    if rng.random() < 0.2:
+        # a parallel transition (same source, input and target) writing the same letters in another order or number
+        s_, a_, t_, out = rng.choice(trans)
+        out2 = rng.choice([out[::-1], out + out[:1], out + out[-1:], out[1:], out + [rng.randrange(2)]])
+        if len(out) < 2 and rng.random() < 0.5:
+            k_ = rng.randrange(2)
+            out, out2 = [k_, 1 - k_], [1 - k_, k_]
+            trans.append([s_, a_, t_, out])
+        if [s_, a_, t_, out2] not in trans:
+            trans.append([s_, a_, t_, out2])
     starts = sorted(set(rng.randrange(n) for _ in range(rng.choice([1, 1, 2]))))
     finals = [s for s in range(n) if rng.random() < 0.5]
     c = {"n": n, "trans": trans, "starts": starts, "finals": finals,
